@@ -888,6 +888,7 @@ static const int LADOFF[] = {-3, -2, -1, 0, 1};
 static const char* LADSPN[] = {"U+10000", "U+20AC", "&", "CR", "]]>"};
 static const char* LADKN[] = {"Text", "Attr", "CDATA", "Comment"};
 static uint64_t ladder_total() { return 3ULL * 5 * 5 * 2 * 4; }
+static bool g_ladder_quick = false;   // quick tier: N = 16384 only, specials U+10000 and '&', Text and attribute value (40 of the 600 trees)
 static std::string ladder_label(uint64_t i) {
     int kind = (int)(i % 4); i /= 4; int fill = (int)(i % 2); i /= 2; int sp = (int)(i % 5); i /= 5; int off = (int)(i % 5); i /= 5; int n = (int)i;
     return std::string("<a> with ") + LADKN[kind] + " = " + (fill ? "U+00E9" : "x") + "^(" + std::to_string(LADN[n]) + (LADOFF[off] < 0 ? "" : "+") + std::to_string(LADOFF[off]) + ") " + LADSPN[sp] + " tail";
@@ -895,6 +896,7 @@ static std::string ladder_label(uint64_t i) {
 static void run_ladder(uint64_t idx, Ctx& c) {
     uint64_t i = idx;
     int kind = (int)(i % 4); i /= 4; int fill = (int)(i % 2); i /= 2; int sp = (int)(i % 5); i /= 5; int off = (int)(i % 5); i /= 5; int n = (int)i;
+    if (g_ladder_quick && !(n == 1 && (sp == 0 || sp == 2) && kind <= 1)) { c.count("ladder_not_in_quick_subset"); return; }
     U16 data((size_t)((long)LADN[n] + LADOFF[off]), fill ? (char16_t)0xE9 : u'x');
     switch (sp) {
     case 0: data += (char16_t)0xD800; data += (char16_t)0xDC00; break;
@@ -1130,6 +1132,7 @@ int main(int argc, char** argv) {
         extra += ",\"alphabet\":" + std::to_string(STEPS.size()) + ",\"depth\":" + std::to_string(g_steps);
     } else if (space == "ladder") {
         R.total = ladder_total();
+        g_ladder_quick = a.str("ladder", "full") == "quick";
         R.fn = run_ladder;
         R.describe = [](uint64_t i) { return "{\"tree\":" + jstr(ladder_label(i)) + "}"; };
         extra += ",\"lengths\":[8192,16384,32768],\"offsets\":[-3,1]";
